@@ -2,3 +2,4 @@ import ChamProofs.ReLemmas
 import ChamProofs.Props.C03
 import ChamProofs.Props.C02
 import ChamProofs.Props.C13
+import ChamProofs.Props.C01
